@@ -161,7 +161,10 @@ CLAIMS = {
              "which received a contradicting response failed, and Seek/Read against a reader over the blob.",
         note="'Allowed by the specification' is relative to the request forms written in Registry.tla. Known finding F17 "
              "(Resolve by tag needs the optional Docker-Content-Digest header) is matched by signature. Fixed in /repo: F11. "
-             "Histories are sequential; ManifestMediaTypes and custom page sizes are not varied yet.",
+             "Profiles also vary: Referrers API or client-maintained tag schema, a Referrers page limit, server- or "
+             "client-side artifactType filtering (Repository.Referrers with a filter), content negotiation on Accept with a "
+             "manifest under a user media type listed in Repository.ManifestMediaTypes. Histories are sequential; client "
+             "page-size options are not varied.",
         ref="3 C13", technique=TECH + " (RegistryMon.tla: exchanges replayed on the registry model, API results judged)"),
     "C14": dict(
         text="Referrers.tla models syncutil.Merge's batching protocol (assign / commit / complete with the pending queue), the index "
